@@ -46,7 +46,7 @@ def make_convention(conv):
 def sym_array(ctx, shape, name='v'):
     arr = numpy.empty(shape, dtype=object if ctx.symbolic else float)
     for k, idx in enumerate(numpy.ndindex(*shape)):
-        arr[idx] = ctx.real(f'{name}{k}', nan=True)
+        arr[idx] = ctx.real(f'{name}{k}', nan=True, hint=100.0 + k)      # distinct witness values: replays can tell elements apart
     return arr
 
 
@@ -129,7 +129,7 @@ def body_roundtrip(ctx, conv, kind, extras, perm, linear_name, wind_by, coords=F
     ctx.check(And(*ok), 'wind(ravel(v)) holds exactly the original values')
 
 
-def body_wind_first(ctx, conv, kind, extras, position, by):
+def body_wind_first(ctx, conv, kind, extras, position, by, fortran=False):
     """Wind arbitrary linear data whose linear dimension sits at `position`, then flatten again."""
     ds, convention = make_convention(conv)
     kind_obj = next(k for k in convention.grid_kinds if k.value == kind)
@@ -142,7 +142,14 @@ def body_wind_first(ctx, conv, kind, extras, position, by):
     sizes[lin] = size
     shape = tuple(sizes[d] for d in dims)
     values = sym_array(ctx, shape, 'w')
-    da = xarray.DataArray(values, dims=dims)
+    if fortran:
+        # the same values held in a column-major buffer (what DataArray.transpose hands over): results depend on
+        # the values, never on how the array happens to be laid out in memory
+        held = numpy.asfortranarray(values) if values.ndim > 1 else values
+        ctx.check(values.ndim < 2 or (held.flags.f_contiguous and not held.flags.c_contiguous) or min(shape) == 1, 'harness: column-major buffer built')
+        da = xarray.DataArray(held, dims=dims)
+    else:
+        da = xarray.DataArray(values, dims=dims)
     if by == 'axis':
         wound = convention.wind(da, grid_kind=kind_obj, axis=position)
     elif by == 'name':
@@ -287,6 +294,9 @@ def cases(tier):
                     for by in ('axis', 'name') + (('default',) if pos == ne else ()):
                         yield Case(f'windfirst:{conv}:{kind}:x{ne}:pos{pos}:{by}', body_wind_first,
                                    dict(conv=conv, kind=kind, extras=extras, position=pos, by=by))
+                    if ne >= 1 and (not q or kind in ('face', 'node')):
+                        yield Case(f'windfirst:{conv}:{kind}:x{ne}:pos{pos}:name:column-major', body_wind_first,
+                                   dict(conv=conv, kind=kind, extras=extras, position=pos, by='name', fortran=True))
         for dk in ('none', 'partial', 'scalar'):
             yield Case(f'offgrid:{conv}:{dk}', body_not_on_grid, dict(conv=conv, dims_kind=dk))
         for taken in ((), ('index',), ('index', 'index_0'), ('index_0',), ('index', 'index_1')):
